@@ -2,8 +2,9 @@ import SnaxVerif.Lemmas.Dispatch
 /-!
 # C14 — dispatch runs each operation on exactly the cores it belongs to
 
-Model: `Model/Dispatch.lean` (`dispatch_regions.py` with fix F04 = `dispatch true`, upstream
-short-circuiting `any(<generator>)` = `dispatch false`; `dispatching_rules.py` = `ruleDm`/`ruleCp`).
+Model: `Model/Dispatch.lean` (`dispatch_regions.py` with fix F04 = `dispatch r true`, upstream
+short-circuiting `any(<generator>)` = `dispatch r false`; `dispatching_rules.py` = `ruleDm`/`ruleCp r`, where
+`r = false` is the upstream `dispatch_to_compute` and `r = true` the one with fixes/FC14a).
 Lemmas (`goB_spec`, `runBlocks_phase`, …) are in `Lemmas/Dispatch.lean`. Statements and theorems only.
 -/
 namespace SnaxVerif.C14
@@ -14,48 +15,48 @@ depth), every core count, every core, every resolution `orc` of the control flow
 executed blocks `fuel` and every entry block: the ops the core executes after dispatching are the ops
 it executes before, filtered by the rule (`allowed`: dm ops only on core `nb-1`, compute ops only on
 core 0, everything else everywhere) — `List.filter`, so in the original relative order. -/
-def C14_statement (fixed : Bool) : Prop :=
+def C14_statement (r fixed : Bool) : Prop :=
   ∀ (f : Func) (nb core : Nat) (orc : Orc) (fuel entry : Nat),
-    runF core orc (dispatch fixed nb f) fuel entry =
-      (runF core orc f fuel entry).filter (allowed nb (coreOf f core))
+    runF core orc (dispatch r fixed nb f) fuel entry =
+      (runF core orc f fuel entry).filter (allowed r nb (coreOf f core))
 
-/-- C14 for the tree with F04 (every block is visited in both phases). -/
-theorem C14_dispatch : C14_statement true := by
+/-- C14 for the tree with F04 (every block is visited in both phases), whichever `dispatch_to_compute`. -/
+theorem C14_dispatch (r : Bool) : C14_statement r true := by
   intro f nb core orc fuel entry
   simp only [runF, coreOf_dispatch]
   simp only [dispatch]
-  rw [runBlocks_phase cpOf 0 _ orc cpOf_regEv, runBlocks_phase dmOf (nb - 1) _ orc dmOf_regEv,
+  rw [runBlocks_phase (cpOf r) 0 _ orc (cpOf_regEv r), runBlocks_phase dmOf (nb - 1) _ orc dmOf_regEv,
     List.filter_filter]
   congr 1
   funext l
   rw [Bool.and_comm]
-  exact keep_keep nb _ l
+  exact keep_keep r nb _ l
 
 /-- D7: the upstream `any(dispatcher(...) for block in blocks)` stops at the first block that
 changed; the copy in the second block is never guarded and runs on the compute core. -/
-theorem C14_shortcircuit_fails : ¬ C14_statement false := by
+theorem C14_shortcircuit_fails (r : Bool) : ¬ C14_statement r false := by
   intro h
   have := h ⟨[], [⟨.cons (.leaf ⟨1, .copy, false⟩) .nil, .br 1⟩,
                   ⟨.cons (.leaf ⟨2, .copy, false⟩) .nil, .ret⟩]⟩ 2 0 (fun _ _ _ => []) 2 0
   revert this
-  decide
+  cases r <;> decide
 
 /-- the same function is handled by the fixed pass (non-vacuity of `C14_dispatch` on the D7 witness:
 core 0 executes nothing, core 1 both copies) -/
 example :
     let f : Func := ⟨[], [⟨.cons (.leaf ⟨1, .copy, false⟩) .nil, .br 1⟩,
                           ⟨.cons (.leaf ⟨2, .copy, false⟩) .nil, .ret⟩]⟩
-    runF 0 (fun _ _ _ => []) (dispatch true 2 f) 2 0 = [] ∧
-    (runF 1 (fun _ _ _ => []) (dispatch true 2 f) 2 0).map (·.id) = [1, 2] := by decide
+    runF 0 (fun _ _ _ => []) (dispatch false true 2 f) 2 0 = [] ∧
+    (runF 1 (fun _ _ _ => []) (dispatch false true 2 f) 2 0).map (·.id) = [1, 2] := by decide
 
 /-- Consequences spelled out: after dispatching, a core executes an op only if the rule allows it,
 every op the rule allows is still executed, and the executed ops are a subsequence of the original. -/
-theorem C14_exactly_its_cores (f : Func) (nb core : Nat) (orc : Orc) (fuel entry : Nat) (l : Leaf) :
-    (l ∈ runF core orc (dispatch true nb f) fuel entry ↔
+theorem C14_exactly_its_cores (r : Bool) (f : Func) (nb core : Nat) (orc : Orc) (fuel entry : Nat) (l : Leaf) :
+    (l ∈ runF core orc (dispatch r true nb f) fuel entry ↔
       l ∈ runF core orc f fuel entry ∧ (dmOf l = true → coreOf f core = nb - 1) ∧
-        (cpOf l = true → coreOf f core = 0)) ∧
-    (runF core orc (dispatch true nb f) fuel entry).Sublist (runF core orc f fuel entry) := by
-  rw [C14_dispatch f nb core orc fuel entry]
+        (cpOf r l = true → coreOf f core = 0)) ∧
+    (runF core orc (dispatch r true nb f) fuel entry).Sublist (runF core orc f fuel entry) := by
+  rw [C14_dispatch r f nb core orc fuel entry]
   refine ⟨?_, List.filter_sublist⟩
   simp only [List.mem_filter, allowed, Bool.and_eq_true, Bool.or_eq_true, Bool.not_eq_true',
     decide_eq_true_eq]
@@ -67,7 +68,7 @@ theorem C14_exactly_its_cores (f : Func) (nb core : Nat) (orc : Orc) (fuel entry
     · cases hd : dmOf l
       · exact Or.inl rfl
       · exact Or.inr (h1 hd)
-    · cases hc : cpOf l
+    · cases hc : cpOf r l
       · exact Or.inl rfl
       · exact Or.inr (h2 hc)
 
@@ -75,13 +76,13 @@ example : -- non-trivial instance: nested loop/if, adjacent and separated ops, t
     let f : Func := ⟨[], [⟨.cons (.leaf ⟨1, .copy, false⟩) (.cons (.leaf ⟨2, .copy, false⟩)
       (.cons (.reg 3 1 (.cons (.cons (.leaf ⟨4, .generic, true⟩) (.cons (.leaf ⟨5, .other, false⟩)
         (.cons (.leaf ⟨6, .copy, false⟩) .nil))) .nil)) .nil)), .ret⟩]⟩
-    (runF 0 (stdOrc 1) (dispatch true 3 f) 1 0).map (·.id) = [3, 4, 5, 4, 5] ∧
-    (runF 1 (stdOrc 1) (dispatch true 3 f) 1 0).map (·.id) = [3, 5, 5] ∧
-    (runF 2 (stdOrc 1) (dispatch true 3 f) 1 0).map (·.id) = [1, 2, 3, 5, 6, 5, 6] := by decide
+    (runF 0 (stdOrc 1) (dispatch false true 3 f) 1 0).map (·.id) = [3, 4, 5, 4, 5] ∧
+    (runF 1 (stdOrc 1) (dispatch false true 3 f) 1 0).map (·.id) = [3, 5, 5] ∧
+    (runF 2 (stdOrc 1) (dispatch false true 3 f) 1 0).map (·.id) = [1, 2, 3, 5, 6, 5, 6] := by decide
 
 /-- An external declaration (a function without blocks) is left untouched. -/
-theorem dispatch_declaration (fixed : Bool) (nb : Nat) (f : Func) (h : f.blocks = []) :
-    dispatch fixed nb f = f := by
+theorem dispatch_declaration (r fixed : Bool) (nb : Nat) (f : Func) (h : f.blocks = []) :
+    dispatch r fixed nb f = f := by
   cases f with
   | mk pre blocks =>
     simp only at h
@@ -90,19 +91,141 @@ theorem dispatch_declaration (fixed : Bool) (nb : Nat) (f : Func) (h : f.blocks 
 
 /-- Module level: every function of the module — whatever its visibility, which the pass does not look
 at — is dispatched; position by position the functions of the output execute the filtered original. -/
-theorem C14_module (m : List Func) (nb core : Nat) (orc : Orc) (fuel entry : Nat) :
-    (dispatchModule true nb m).map (fun g => runF core orc g fuel entry) =
-      m.map (fun f => (runF core orc f fuel entry).filter (allowed nb (coreOf f core))) := by
+theorem C14_module (r : Bool) (m : List Func) (nb core : Nat) (orc : Orc) (fuel entry : Nat) :
+    (dispatchModule r true nb m).map (fun g => runF core orc g fuel entry) =
+      m.map (fun f => (runF core orc f fuel entry).filter (allowed r nb (coreOf f core))) := by
   simp only [dispatchModule, List.map_map]
   apply List.map_congr_left
   intro f _
-  exact C14_dispatch f nb core orc fuel entry
+  exact C14_dispatch r f nb core orc fuel entry
 
 example : -- a declaration followed by a function with a body: the declaration stays, the body is guarded
     let m : List Func := [⟨[], []⟩, ⟨[], [⟨.cons (.leaf ⟨1, .copy, false⟩) .nil, .ret⟩]⟩]
-    (dispatchModule true 2 m).map (fun g => (runF 0 (fun _ _ _ => []) g 1 0).map (·.id)) = [[], []] ∧
-    (dispatchModule true 2 m).map (fun g => (runF 1 (fun _ _ _ => []) g 1 0).map (·.id)) = [[], [1]] ∧
-    (dispatchModule true 2 m).map (fun g => g.pre.length) = [0, 3] := by decide
+    (dispatchModule false true 2 m).map (fun g => (runF 0 (fun _ _ _ => []) g 1 0).map (·.id)) = [[], []] ∧
+    (dispatchModule false true 2 m).map (fun g => (runF 1 (fun _ _ _ => []) g 1 0).map (·.id)) = [[], [1]] ∧
+    (dispatchModule false true 2 m).map (fun g => g.pre.length) = [0, 3] := by decide
+
+/-! ### structure of the output: grouping never changes which op is guarded by which condition -/
+
+/-- The pass only ADDS guards: erasing every guard from the output gives back the input, block by block
+(same ops, same order, same nesting in region ops, same terminators) — no op is lost, duplicated,
+reordered or moved into another region, whatever the grouping does. -/
+theorem C14_only_adds_guards (r : Bool) (f : Func) (nb : Nat) :
+    (dispatch r true nb f).blocks.map (fun bb => (stripB bb.body, bb.term)) =
+      f.blocks.map (fun bb => (stripB bb.body, bb.term)) := by
+  simp only [dispatch, phaseBlocks_map, List.map_map]
+  apply List.map_congr_left
+  intro bb _
+  simp [Function.comp, strip_goB, ofLeaves, appB]
+
+/-- ... and exactly these guards: in the output every leaf carries the guards it had, followed by the
+guard of the data-mover core iff `dispatch_to_dm` claims it and the guard of the compute core iff
+`dispatch_to_compute` claims it (`guardsFor`) — independent of how neighbouring ops were grouped, at
+every nesting depth, in every block. -/
+theorem C14_guards (r : Bool) (f : Func) (nb : Nat) :
+    (dispatch r true nb f).blocks.map (fun bb => labB [] bb.body) =
+      f.blocks.map (fun bb => (labB [] bb.body).map (fun x => (x.1, x.2 ++ guardsFor r nb x.1))) := by
+  simp only [dispatch, phaseBlocks_map, List.map_map]
+  apply List.map_congr_left
+  intro bb _
+  simp only [Function.comp]
+  rw [lab_goB (cpOf r) 0 (cpOf_regEv r) _ [] [] (by simp),
+    lab_goB dmOf (nb - 1) dmOf_regEv _ [] [] (by simp)]
+  simp only [List.reverse_nil, List.map_nil, List.nil_append, List.map_map]
+  apply List.map_congr_left
+  intro x _
+  obtain ⟨l, g⟩ := x
+  simp only [Function.comp, relab, guardsFor]
+  cases hd : dmOf l <;> cases hc : cpOf r l <;> simp [hc]
+
+example : -- the D7 witness and a grouped run: guards per leaf
+    let f : Func := ⟨[], [⟨.cons (.leaf ⟨1, .copy, false⟩) (.cons (.leaf ⟨2, .copy, false⟩)
+      (.cons (.reg 3 1 (.cons (.cons (.leaf ⟨4, .generic, true⟩) (.cons (.leaf ⟨5, .other, false⟩) .nil)) .nil)) .nil)),
+      .ret⟩]⟩
+    (dispatch false true 3 f).blocks.map (fun bb => (labB [] bb.body).map (fun x => (x.1.id, x.2))) =
+      [[(1, [2]), (2, [2]), (3, []), (4, [0]), (5, [])]] := by decide
+
+/-- One core (`nb_cores = 1`): core 0 is both the data mover and the compute core and executes the
+whole original program. -/
+theorem C14_single_core (r : Bool) (f : Func) (hpre : f.pre = []) (orc : Orc) (fuel entry : Nat) :
+    runF 0 orc (dispatch r true 1 f) fuel entry = runF 0 orc f fuel entry := by
+  rw [C14_dispatch r f 1 0 orc fuel entry]
+  have hc : coreOf f 0 = 0 := by simp [coreOf, hpre]
+  rw [hc]
+  apply List.filter_eq_self.mpr
+  intro l _
+  simp [allowed]
+
+/-! ### the whole pass on a module (both patterns, with the declaration of `snax_cluster_core_idx`) -/
+
+/-- Whenever the pass succeeds on a module, its functions are, position by position, the dispatched
+functions (so `C14_module` applies to them); the declaration of `snax_cluster_core_idx` is in the
+output iff it was there before or some function calls it after dispatching. -/
+theorem module_ok (r declFix : Bool) (nb : Nat) (m out : List Item)
+    (h : dispatchModuleE r declFix nb m = .ok out) :
+    fnsOf out = (fnsOf m).map (dispatch r true nb) ∧
+    (out.any isCoreDecl = (m.any isCoreDecl || m.any (itemCalls r nb))) := by
+  have hmap : ∀ l : List Item, fnsOf (l.map (dispatchItem r nb)) = (fnsOf l).map (dispatch r true nb) := by
+    intro l
+    induction l with
+    | nil => rfl
+    | cons it rest ih => cases it <;> simp [fnsOf, dispatchItem, ih]
+  have happ : ∀ l : List Item, fnsOf (l ++ [.coreDecl]) = fnsOf l := by
+    intro l
+    induction l with
+    | nil => rfl
+    | cons it rest ih => cases it <;> simp [fnsOf, ih]
+  have hdecl : ∀ l : List Item, (l.map (dispatchItem r nb)).any isCoreDecl = l.any isCoreDecl := by
+    intro l
+    induction l with
+    | nil => rfl
+    | cons it rest ih => cases it <;> simp [dispatchItem, isCoreDecl, ih]
+  simp only [dispatchModuleE] at h
+  split at h
+  · cases h
+  · split at h
+    · cases h
+    · injection h with h
+      subst h
+      cases hc : m.any (itemCalls r nb) <;> cases hd : m.any isCoreDecl <;>
+        simp [hmap, happ, hdecl, hd, isCoreDecl, List.any_append]
+
+/-- clause excluding finding DC14b: no declaration of `snax_cluster_core_idx` stands after a function
+that calls it once the first pattern ran -/
+def NoLateCoreDecl (r : Bool) (nb : Nat) (m : List Item) : Prop := lateDecl r nb m = false
+
+/-- full statement: on every module whose rules do not raise, the pass produces an output -/
+def module_total_statement (r declFix : Bool) : Prop :=
+  ∀ (nb : Nat) (m : List Item), firstRuleErr m = none → ∃ out, dispatchModuleE r declFix nb m = .ok out
+
+theorem module_total_partial (r : Bool) (nb : Nat) (m : List Item) (hr : firstRuleErr m = none)
+    (hclause : NoLateCoreDecl r nb m) : ∃ out, dispatchModuleE r false nb m = .ok out := by
+  simp only [dispatchModuleE, hr, NoLateCoreDecl.eq_1 r nb m ▸ hclause]
+  exact ⟨_, rfl⟩
+
+/-- DC14b: a function with one copy followed by the declaration — which is what the pass itself emits —
+makes the pass raise. -/
+theorem module_total_fails (r : Bool) : ¬ module_total_statement r false := by
+  intro h
+  obtain ⟨out, ho⟩ := h 2 [.fn ⟨[], [⟨.cons (.leaf ⟨1, .copy, false⟩) .nil, .ret⟩]⟩, .coreDecl] rfl
+  revert ho
+  cases r <;> simp [dispatchModuleE, firstRuleErr, errBlocks, errB, errO, leafErr, ruleDm, lateDecl, itemCalls,
+    declInserted, changedBlocks, anyB, anyO, dmOf, isCoreDecl]
+
+/-- with fixes/FC14b (an existing declaration is left alone) the pass is total -/
+theorem module_total_fixed (r : Bool) : module_total_statement r true := by
+  intro nb m hr
+  simp only [dispatchModuleE, hr]
+  exact ⟨_, rfl⟩
+
+/-- in particular the upstream pass cannot be applied to its own output, the fixed one can, and then
+every function is dispatched a second time -/
+example :
+    let m : List Item := [.fn ⟨[], [⟨.cons (.leaf ⟨1, .copy, false⟩) .nil, .ret⟩]⟩]
+    (dispatchModuleE false false 2 m).toBool = true ∧
+    (dispatchModuleE false false 2 m >>= dispatchModuleE false false 2).toBool = false ∧
+    (dispatchModuleE false true 2 m >>= dispatchModuleE false true 2).toBool = true ∧
+    ((dispatchModuleE false true 2 m >>= dispatchModuleE false true 2).toOption.map List.length) = some 2 := by decide
 
 /-- with at least two cores the data-mover core and the compute core are different cores -/
 theorem dm_core_ne_compute_core (nb : Nat) (h : 2 ≤ nb) : nb - 1 ≠ 0 := by omega
@@ -111,11 +234,12 @@ theorem dm_core_ne_compute_core (nb : Nat) (h : 2 ≤ nb) : nb - 1 ≠ 0 := by o
 kernel differs from its kernel (true of `XDMA_EXT_SET`, whose kernels are pairwise different; the
 harness checks `false ∈ ms` on every generated streaming region). -/
 theorem rules_exclusive (k : OpKind) (hms : ∀ acc fg ms, k = .stream acc fg ms → false ∈ ms) :
-    ¬ (ruleDm k = .ok true ∧ ruleCp k = .ok true) := by
+    ¬ (ruleDm k = .ok true ∧ ruleCp false k = .ok true) := by
   cases k with
   | copy => simp [ruleCp]
   | generic => simp [ruleDm]
   | other => simp [ruleDm]
+  | coreCall => simp [ruleDm]
   | stream acc fg ms =>
     have hm := hms acc fg ms rfl
     cases acc <;> cases fg <;> simp [ruleDm, ruleCp, accCheck]
@@ -123,7 +247,17 @@ theorem rules_exclusive (k : OpKind) (hms : ∀ acc fg ms, k = .stream acc fg ms
     exact hm
 
 example : false ∈ [true, false, false] ∧ ruleDm (.stream .xdma true [true, false, false]) = .ok true ∧
-    ruleCp (.stream .xdma true [true, false, false]) = .ok false := ⟨by decide, rfl, rfl⟩
+    ruleCp false (.stream .xdma true [true, false, false]) = .ok false := ⟨by decide, rfl, rfl⟩
+
+/-- With fixes/FC14a the two rules never both claim an op — no hypothesis on the extension table. -/
+theorem rules_exclusive_fixed (k : OpKind) : ¬ (ruleDm k = .ok true ∧ ruleCp true k = .ok true) := by
+  cases k with
+  | copy => simp [ruleCp]
+  | generic => simp [ruleDm]
+  | other => simp [ruleDm]
+  | coreCall => simp [ruleDm]
+  | stream acc fg ms =>
+    cases acc <;> cases fg <;> simp [ruleDm, ruleCp, accCheck]
 
 /-! ### the rules against the classes of the property -/
 
@@ -144,15 +278,34 @@ def NoForeignXdmaKernel : OpKind → Prop
   | _ => True
 
 /-- full statement: the two rules classify every op as the property does -/
-def rules_statement : Prop :=
-  ∀ k : OpKind, AccOk k → OneExtDiffers k → rulesClass k = some (specClass k)
+def rules_statement (r : Bool) : Prop :=
+  ∀ k : OpKind, AccOk k → OneExtDiffers k → rulesClass r k = some (specClass k)
 
-theorem rules_match_spec_partial (k : OpKind) (hacc : AccOk k) (hdiff : OneExtDiffers k)
-    (hclause : NoForeignXdmaKernel k) : rulesClass k = some (specClass k) := by
+/-- With fixes/FC14a the full statement holds — even without `OneExtDiffers`: every op whose rules do
+not raise is classified exactly as the property says (copy / xDMA extension kernel: data mover;
+linalg.generic / every other streaming region: compute; anything else: all cores). -/
+theorem rules_match_spec (k : OpKind) (hacc : AccOk k) : rulesClass true k = some (specClass k) := by
   cases k with
   | copy => rfl
   | generic => rfl
   | other => rfl
+  | coreCall => rfl
+  | stream acc fg ms =>
+    cases acc <;> cases fg
+    case xdma.true =>
+      cases h : ms.any id <;> simp [rulesClass, specClass, ruleDm, ruleCp, accCheck, h]
+    all_goals simp_all [AccOk, rulesClass, specClass, ruleDm, ruleCp, accCheck]
+
+theorem rules_statement_fixed : rules_statement true := fun k hacc _ => rules_match_spec k hacc
+
+/-- the upstream rules, outside finding DC14a -/
+theorem rules_match_spec_partial (k : OpKind) (hacc : AccOk k) (hdiff : OneExtDiffers k)
+    (hclause : NoForeignXdmaKernel k) : rulesClass false k = some (specClass k) := by
+  cases k with
+  | copy => rfl
+  | generic => rfl
+  | other => rfl
+  | coreCall => rfl
   | stream acc fg ms =>
     have hany : ms.any (fun m => !m) = true := by
       simp only [OneExtDiffers] at hdiff
@@ -167,7 +320,7 @@ theorem rules_match_spec_partial (k : OpKind) (hacc : AccOk k) (hdiff : OneExtDi
 /-- DC14a: `dispatch_to_compute` returns False for an xDMA streaming region as soon as ONE extension
 kernel differs (`any(not same)`), so a region whose kernel no extension provides is claimed by neither
 rule and runs on every core, although it is an accelerator operation. -/
-theorem rules_match_spec_fails : ¬ rules_statement := by
+theorem rules_match_spec_fails : ¬ rules_statement false := by
   intro h
   have := h (.stream .xdma true [false, false, false]) trivial (by simp [OneExtDiffers])
   revert this
@@ -175,8 +328,9 @@ theorem rules_match_spec_fails : ¬ rules_statement := by
 
 example : AccOk (.stream .xdma true [false, false, true]) ∧ OneExtDiffers (.stream .xdma true [false, false, true]) ∧
     NoForeignXdmaKernel (.stream .xdma true [false, false, true]) ∧
-    rulesClass (.stream .xdma true [false, false, true]) = some .dm := by
-  refine ⟨trivial, by simp [OneExtDiffers], by simp [NoForeignXdmaKernel], by decide⟩
+    rulesClass false (.stream .xdma true [false, false, true]) = some .dm ∧
+    rulesClass true (.stream .xdma true [false, false, false]) = some .cp := by
+  refine ⟨trivial, by simp [OneExtDiffers], by simp [NoForeignXdmaKernel], by decide, by decide⟩
 
 /-! ### the concrete extension kernel table -/
 
@@ -196,9 +350,9 @@ theorem xdma_table_one_differs (k : KSig) : false ∈ matchesOf k := by
 the streaming region a data-mover op and nothing else; every other kernel on the xDMA is claimed by
 neither rule (DC14a); on any other registered accelerator the region is a compute op. -/
 theorem xdma_kernel_classes (k : KSig) :
-    (k ∈ xdmaExtKernels → rulesClass (.stream .xdma true (matchesOf k)) = some .dm) ∧
-    (k ∉ xdmaExtKernels → rulesClass (.stream .xdma true (matchesOf k)) = some .all) ∧
-    rulesClass (.stream .other true (matchesOf k)) = some .cp := by
+    (k ∈ xdmaExtKernels → rulesClass false (.stream .xdma true (matchesOf k)) = some .dm) ∧
+    (k ∉ xdmaExtKernels → rulesClass false (.stream .xdma true (matchesOf k)) = some .all) ∧
+    rulesClass false (.stream .other true (matchesOf k)) = some .cp := by
   have hd := xdma_table_one_differs k
   have hany : (matchesOf k).any (fun m => !m) = true := by
     simp only [List.any_eq_true]; exact ⟨false, hd, rfl⟩
@@ -217,33 +371,73 @@ theorem xdma_kernel_classes (k : KSig) :
     simp [rulesClass, ruleDm, ruleCp, accCheck, h1, hany]
   · simp [rulesClass, ruleDm, ruleCp, accCheck]
 
+/-- the same with fixes/FC14a: a kernel no extension provides makes the region a compute op -/
+theorem xdma_kernel_classes_fixed (k : KSig) :
+    (k ∈ xdmaExtKernels → rulesClass true (.stream .xdma true (matchesOf k)) = some .dm) ∧
+    (k ∉ xdmaExtKernels → rulesClass true (.stream .xdma true (matchesOf k)) = some .cp) ∧
+    rulesClass true (.stream .other true (matchesOf k)) = some .cp := by
+  have hiff : (matchesOf k).any id = true ↔ k ∈ xdmaExtKernels := by
+    simp only [matchesOf, List.any_map, List.any_eq_true, Function.comp, id, decide_eq_true_eq]
+    constructor
+    · rintro ⟨e, he, rfl⟩; exact he
+    · intro h; exact ⟨k, h, rfl⟩
+  refine ⟨fun h => ?_, fun h => ?_, ?_⟩
+  · have h1 := hiff.mpr h
+    simp [rulesClass, ruleDm, ruleCp, accCheck, h1]
+  · have h1 : (matchesOf k).any id = false := by
+      cases hx : (matchesOf k).any id
+      · rfl
+      · exact absurd (hiff.mp hx) h
+    simp [rulesClass, ruleDm, ruleCp, accCheck, h1]
+  · simp [rulesClass, ruleDm, ruleCp, accCheck]
+
+/-- For streaming regions built from the actual extension table the two rules never both claim the op —
+for both versions of `dispatch_to_compute`, no hypothesis left. -/
+theorem rules_exclusive_table (r : Bool) (acc : Acc) (fg : Bool) (k : KSig) :
+    ¬ (ruleDm (.stream acc fg (matchesOf k)) = .ok true ∧ ruleCp r (.stream acc fg (matchesOf k)) = .ok true) := by
+  cases r
+  · exact rules_exclusive _ (fun _ _ ms h => by cases h; exact xdma_table_one_differs k)
+  · exact rules_exclusive_fixed _
+
 example : matchesOf ⟨"kernel.rescale", ["i32", "i8"]⟩ = [true, false, false] ∧
     matchesOf ⟨"kernel.rescale", ["i8", "i32"]⟩ = [false, true, false] ∧
     matchesOf ⟨"kernel.add", ["i32", "i32", "i32"]⟩ = [false, false, true] ∧
     matchesOf ⟨"kernel.rescale", ["i32", "i32"]⟩ = [false, false, false] := by decide
 
+/-- `InsertFunctionDeclaration`: the declaration of `snax_cluster_core_idx` is inserted iff the function
+contains a call of it after dispatching — the annotated call emitted by the pass, or a call that was in
+the program already. -/
+theorem decl_iff_called (r : Bool) (nb : Nat) (f : Func) (hpre : f.pre = []) :
+    declInserted r nb f = true ↔
+      ((∃ pins, Pre.call pins ∈ (dispatch r true nb f).pre) ∨ changedBlocks isCoreCall f.blocks = true) := by
+  simp only [declInserted, dispatch, hpre, List.append_nil]
+  generalize changedBlocks dmOf f.blocks = a
+  generalize changedBlocks (cpOf r) _ = b
+  generalize changedBlocks isCoreCall f.blocks = c
+  cases a <;> cases b <;> cases c <;> simp [prelude]
+
 /-- The annotated call offers exactly the core ids `0 … nb-1` for pinning. -/
-theorem pin_constants_cover (f : Func) (nb k : Nat) (pins : List Nat)
-    (h : Pre.call pins ∈ (dispatch true nb f).pre) (hpre : f.pre = []) : k ∈ pins ↔ k < nb := by
+theorem pin_constants_cover (r : Bool) (f : Func) (nb k : Nat) (pins : List Nat)
+    (h : Pre.call pins ∈ (dispatch r true nb f).pre) (hpre : f.pre = []) : k ∈ pins ↔ k < nb := by
   simp only [dispatch, hpre, List.append_nil] at h
   generalize changedBlocks dmOf f.blocks = a at h
-  generalize changedBlocks cpOf _ = b at h
+  generalize changedBlocks (cpOf r) _ = b at h
   cases a <;> cases b <;> simp [prelude] at h <;> subst h <;> simp
 
 /-- Pinning: when the pass emitted the core-id call, the specialisation of the dispatched function to
 the constant `k` executes — on whatever core it is called — exactly the original program filtered by
 the rule for core `k`. -/
-theorem pin_spec (f : Func) (hpre : f.pre = []) (nb k core : Nat) (orc : Orc) (fuel entry : Nat)
-    (hcall : (dispatch true nb f).pre ≠ []) :
-    runF core orc (pin k (dispatch true nb f)) fuel entry =
-      (runF k orc f fuel entry).filter (allowed nb k) := by
-  have hk : coreOf (pin k (dispatch true nb f)) core = k := by
+theorem pin_spec (r : Bool) (f : Func) (hpre : f.pre = []) (nb k core : Nat) (orc : Orc) (fuel entry : Nat)
+    (hcall : (dispatch r true nb f).pre ≠ []) :
+    runF core orc (pin k (dispatch r true nb f)) fuel entry =
+      (runF k orc f fuel entry).filter (allowed r nb k) := by
+  have hk : coreOf (pin k (dispatch r true nb f)) core = k := by
     simp only [dispatch, hpre, List.append_nil, ne_eq] at hcall
     simp only [coreOf, pin, dispatch, hpre, List.append_nil]
     generalize changedBlocks dmOf f.blocks = a at hcall ⊢
-    generalize changedBlocks cpOf _ = b at hcall ⊢
+    generalize changedBlocks (cpOf r) _ = b at hcall ⊢
     cases a <;> cases b <;> simp [prelude, pinPre, pinnedVal, List.findSome?_cons] at hcall ⊢
-  have h := C14_dispatch f nb k orc fuel entry
+  have h := C14_dispatch r f nb k orc fuel entry
   simp only [runF, coreOf_dispatch] at h
   have hf : coreOf f k = k := by simp [coreOf, hpre]
   rw [hf] at h
@@ -257,7 +451,7 @@ theorem pin_unchanged (g : Func) (k : Nat) (h : g.pre = []) : pin k g = g := by
 example : -- pin_spec is not vacuous: the D7 witness gets the call, pinned to core 1 it runs both copies
     let f : Func := ⟨[], [⟨.cons (.leaf ⟨1, .copy, false⟩) .nil, .br 1⟩,
                           ⟨.cons (.leaf ⟨2, .copy, false⟩) .nil, .ret⟩]⟩
-    (dispatch true 2 f).pre ≠ [] ∧
-    (runF 0 (fun _ _ _ => []) (pin 1 (dispatch true 2 f)) 2 0).map (·.id) = [1, 2] := by decide
+    (dispatch false true 2 f).pre ≠ [] ∧
+    (runF 0 (fun _ _ _ => []) (pin 1 (dispatch false true 2 f)) 2 0).map (·.id) = [1, 2] := by decide
 
 end SnaxVerif.C14
